@@ -803,7 +803,7 @@ class Reaction:
                             raise RuntimeError(f"invalid reference phase '{phase_ref}'")
             Hfs = Hfs + H_latent
         if self._basis == 'wt': Hfs = Hfs / self.MWs
-        return self._X * (Hfs * stoichiometry).sum()
+        return self.X * (Hfs * stoichiometry).sum()
     
     @property
     def X(self):
